@@ -49,7 +49,7 @@ CHECKS.update({
 
 CHECKS.update({
  "C20": dict(engine="E5-wiresim", level="exploration", ref="4 (C20), 2.3 (E5)",
-   note="The TCP socket is replaced by a simulated byte stream implementing Read/Write whose every call draws its behaviour (fragment size, short write, EINTR, EOF) from the seed; framing, encoding and decoding are the real axmosdb::tcp code. The worker runs under a 3 GiB address-space limit so that an unbounded allocation kills the worker, which the supervisor reports with the scenario as replay. WouldBlock is not injected (the server uses blocking sockets). Every eighth run index is a whole-database history (engine E1) issued through the server: the server binary's source file is compiled into the simulator as a module and its guarded export gives one iteration of the client loop (receive a request, process_request, send the response) over any Read/Write pair; each simulated connection has a BufReader and a BufWriter over simulated streams as the real loop has over the socket. The accept loop, the TcpStream-specific shell of the client loop and its timeouts are not run. Result sets with zero columns but non-zero rows are not generated (they carry no bytes per row and are rejected as malformed since fix f81eb12).",
+   note="The TCP socket is replaced by a simulated byte stream implementing Read/Write whose every call draws its behaviour (fragment size, short write, EINTR, EOF) from the seed; framing, encoding and decoding are the real axmosdb::tcp code. The worker runs under a 3 GiB address-space limit so that an unbounded allocation kills the worker, which the supervisor reports with the scenario as replay. WouldBlock is not injected (the server uses blocking sockets). Every eighth run index is a whole-database history (engine E1) issued through the server: the server binary's source file is compiled into the simulator as a module and its guarded export gives one iteration of the client loop (receive a request, process_request, send the response) over any Read/Write pair; each simulated connection has a BufReader and a BufWriter over simulated streams as the real loop has over the socket. Every 64th run index uses real loopback TCP connections handed to the real run_client_loop on its own thread (second guarded export), with several frames per write and exactly one request in flight, so that the shell of the real loop (buffering across requests, end of connection) is exercised too; the accept loop and Shutdown are not run. Result sets with zero columns but non-zero rows are not generated (they carry no bytes per row and are rejected as malformed since fix f81eb12).",
    technique="deterministic simulation of the byte stream: seeded fragmentation / short writes / EINTR / EOF-at-any-offset / garbage and header-biased mutation over the real framing and codec, round-trip equality oracle, bounded-allocation oracle via rlimit; plus seeded whole-database histories driven through the real server request loop over simulated streams (pipelined frames, clients vanishing mid-transaction with or without a broken frame), every rendered response compared with a snapshot-isolation reference model",
    text="Seeded stream scenarios: every Request/Response variant with generated field values (empty, non-ASCII, multi-megabyte strings, result sets 0..400 rows x 0..8 columns) must be received exactly as sent under fragmentation, short writes and EINTR with nothing left over in the stream; truncated, random, oversize-prefixed and mutated frames must yield a protocol error (or a well-formed message), never a panic, hang or unbounded allocation. Server side: histories of sessions (BEGIN / statements / COMMIT / ROLLBACK), autocommit statements, DDL, failing statements, VACUUM, ANALYZE, EXPLAIN, CLOSE + OPEN and vanishing clients are sent as requests through process_request; the rows the server renders (including empty results, NULLs and text ending in blanks, quotes, backslashes or non-ASCII characters) must equal the model's rows, a Rows response must be as wide as its header, a vanished client's transaction must leave no effects, and every request byte must be consumed."),
 })
